@@ -535,7 +535,9 @@ func (cx *c03ctx) exec(line string) {
 			r.Stat("result:ERR")
 		} else if strings.HasPrefix(res, "PANIC") {
 			r.Stat("result:PANIC")
-			r.Fail("panic:"+w[0], "panic in "+final, ln, cx.replay())
+			if opName != "scn" { // scenarios report under their own signature
+				r.Fail("panic:"+w[0], "panic in "+final, ln, cx.replay())
+			}
 		}
 		if i := strings.Index(res, " dense="); i >= 0 && strings.HasPrefix(res[i:], " dense=0") {
 			r.Fail("dense:broken", "representation invariant broken on the real worksheet after "+final, ln, cx.replay())
@@ -768,6 +770,45 @@ func (cx *c03ctx) exec(line string) {
 					r.Fail("hyperlink:readback-other-spelling", fmt.Sprintf("SetCellHyperLink(%s, %q) then GetCellHyperLink(%s) = %v %q (%v)", sp, link, other, f2, t2, e2), ln, cx.replay())
 				}
 			}
+		}
+	case "scn":
+		// scratch-file scenarios around code the grid model does not cover; each must return without panicking
+		if len(w) != 3 {
+			emit(line, "bad-op")
+			return
+		}
+		st := "bad-op"
+		if w[1] == "sharedsi" {
+			// a shared formula whose master cell lies outside its reference range (directly, or because the
+			// cell was redirected to the anchor of a merged range) has no shared index; overwriting it
+			// dereferenced the nil index in removeFormula
+			st = c03call(func() error {
+				f := xl.NewFile()
+				defer f.Close()
+				sh := xl.STCellFormulaTypeShared
+				cell, ref, target := "F8", "F8:F9", "G6"
+				if w[2] == "0" {
+					if err := f.MergeCell("Sheet1", "E6", "G8"); err != nil {
+						return err
+					}
+				} else {
+					cell, ref, target = "A1", "B1:B2", "A1"
+				}
+				if err := f.SetCellFormula("Sheet1", cell, "A1+1", xl.FormulaOpts{Type: &sh, Ref: &ref}); err != nil {
+					return err
+				}
+				if err := f.SetCellValue("Sheet1", target, 1); err != nil {
+					return err
+				}
+				if fm, _ := f.GetCellFormula("Sheet1", target); fm != "" {
+					return fmt.Errorf("formula survives: %q", fm)
+				}
+				return nil
+			})
+		}
+		ln := emit(line, st)
+		if st != "ok" && st != "bad-op" {
+			r.Fail("panic:shared-formula-without-index", fmt.Sprintf("scenario %s %s: %s (MergeCell E6:G8; SetCellFormula(F8, shared, Ref F8:F9); SetCellValue(G6) / SetCellFormula(A1, shared, Ref B1:B2); SetCellValue(A1))", w[1], w[2], st), ln, cx.replay())
 		}
 	case "hlrm":
 		sp := unhx(w[1])
@@ -1565,6 +1606,7 @@ var c03witnesses = [][]string{
 	{"new 1", "mrg A2 C2", "unm B1 B3", "gm"},                                                // unmerge by a crossing range
 	{"new 2", "set str A1 sst " + c03tokS("anchor") + " ~", "set int B2 tv ~ " + hx("7"), "mrg A1 B2", "get B2", "set str b2 sst " + c03tokS("via b2") + " ~", "get A1", "obs 1 1 3 3"},
 	{"new 1", "hl b2 " + hx("Sheet1!A40"), "hlget B2", "hl C3 " + hx("Sheet1!A1"), "hl c3 " + hx("Sheet1!A2"), "hlget C3", "hlget c3", "hlrm C3", "hlget c3", "hlget $b$2"}, // no merged cells: spellings still denote one cell
+	{"new 1", "scn sharedsi 0", "scn sharedsi 1"},
 	{"new 1", "mrg A1 B2", "TIME B2", "gsty A1", "gsty B2"},                                  // date style lands on the raw cell
 	{"new 1", "mrg A1 B2", "hl B2 " + hx("Sheet1!C3"), "hlget A1", "hlget b2", "hlget $A$2", "hlget C1", "hl a1 " + hx("Sheet1!D4"), "hlget B1",
 		"hl C1 " + hx("x"), "unm A1 A1", "hlget B2", "hlget A1", "hlrm A1", "hlget A1", "hlget C1", "hlrm XFE1", "hlget A0"},                                       // hyperlink read is not redirected
